@@ -13,6 +13,8 @@ import Upa.Spec.Form
 import Upa.Spec.Serializer
 import Upa.Impl.BoundsUrl
 import Upa.Impl.BoundsMisc
+import Upa.Impl.SimpleBuffer
+import Upa.Impl.StrView
 /-
   Line-protocol driver: executes an operation file on the models (`Impl`, and `Spec` where the
   Standard has an answer) and prints one canonical line per operation: `<impl answer> ## <spec answer>`.
@@ -411,6 +413,8 @@ def exec (idna : Idna) (st : St) (toks : List String) : St × String :=
     let ex := parseHexNat exclS
     let ne : Nat → Bool := fun c => decide (lo ≤ c) && decide (c ≤ hi) && c != ex && decide (c < 256)
     (st, s!"{hx (percentEncode ne (decode (parseEnc enc) (parseUnits units)))} ## ~")
+  | ["buf", n, ops] => (st, s!"{Upa.Impl.SB.runBufLine n.toNat! (if ops == "-" then "" else ops)} ## ~")
+  | ["sv", a, b, k] => (st, s!"{Upa.Impl.SV.runSvLine (parseUnits a) (parseUnits b) k.toNat!} ## ~")
   | ["pdec", enc, units] =>
     let e := parseEnc enc
     let u := parseUnits units
